@@ -516,8 +516,13 @@ impl Rasn {
                 _ => TokenStream::new(),
             }
         } else {
+            // A constrained type reference may well refer to an INTEGER type: no implicit
+            // lower bound of 0 (as for the top-level constrained references).
             self.format_range_annotations(
-                matches!(member.ty(), ASN1Type::Integer(_)),
+                matches!(
+                    member.ty(),
+                    ASN1Type::Integer(_) | ASN1Type::ElsewhereDeclaredType(_)
+                ),
                 &all_constraints,
             )?
         };
